@@ -171,13 +171,40 @@ def _gen_from(rnd):
             head = "shut%d" % i
             prog.insert(rnd.randint(0, len(prog)), ["y", rev + " " + head])
             acl = [RA.acl_rule([head], cd=1), RA.acl_rule([rev, head])] + acl
+        if rnd.chance(35):
+            # a rule for lines this generator emits only under other circumstances (nothing of the kind is yielded this time)
+            acl = acl + [RA.acl_rule(["zeta", rnd.choice(["~", "*"])], cd=rnd.choice([None, None, 1]))]
         g = {"prog": prog, "acl": acl, "acl_indent": rnd.choice([0, 0, 4, 8, 12])}
         if rnd.chance(12):
             # the generator object served another device before, which it refused (NotSupportedDevice) after yielding k lines,
             # possibly from inside a block
             g["aborted_first_run"] = {"after": rnd.randint(1, 3), "in_block": rnd.chance(50)}
+        elif rnd.chance(15):
+            # ... or served it: a device named 'other' (same vendor, or the other vendor) for which this generator has nothing to say and
+            # a wide, device-specific ACL
+            g["served_before"] = rnd.choice(["same-vendor", "other-vendor"])
+        g["vendor_hooks"] = rnd.chance(50)    # run_<vendor>/acl_<vendor> hooks (how the shipped generators are written) or run/acl
         gens.append(g)
-    return {"vendor": vendor, "gens": gens}
+    case = {"vendor": vendor, "gens": gens}
+    if rnd.chance(35):
+        # the device already has a configuration: lines that the generators' ACL rules speak about (some in the overlap of two
+        # generators' rules) and foreign ones; old lines are only filtered by the ACL - ownership conflicts are about yielded lines
+        rows = []
+        allr = [r for g in gens for r in g["acl"] if not r.get("glob") and r["toks"][0] not in ("undo", "no")]
+        for _ in range(rnd.randint(1, 6)):
+            if allr and rnd.chance(75):
+                toks = rnd.choice(allr)["toks"]
+                w = []
+                for tk in toks:
+                    if tk in ("*", "~") or tk.startswith("*/"):
+                        w.append(rnd.choice(["a", "b", "lx"]) if not tk.startswith("*/[0") else "7")
+                    else:
+                        w.append(tk)
+                rows.append(" ".join(w) + (" " + rnd.choice(VALS) if rnd.chance(40) else ""))
+            else:
+                rows.append("zeta " + rnd.choice(VALS))
+        case["old_rows"] = list(dict.fromkeys(rows))
+    return case
 
 
 @st.composite
@@ -230,6 +257,8 @@ def _make_gen(i, spec, vendor):
                     yield from interp(self, op[2])
 
     def run(self, device):
+        if getattr(device, "hostname", "") == "other":
+            return
         ab = spec.get("aborted_first_run")
         if ab and getattr(device, "hostname", "") == "refused":
             from annet.generators import NotSupportedDevice
@@ -244,9 +273,14 @@ def _make_gen(i, spec, vendor):
         yield from interp(self, spec["prog"])
 
     def acl(self, device):
+        if getattr(device, "hostname", "") == "other":
+            return "~ %global\n"      # (the ACL of a generator may depend on the device)
         # ACL literals come with whatever base indentation the generator's source has
         pad = " " * spec.get("acl_indent", 0)
         return "\n" + "".join(pad + l + "\n" for l in RA.acl_lines(spec["acl"]))
+    if spec.get("vendor_hooks"):
+        other = {"huawei": "cisco", "cisco": "huawei"}[vendor]
+        return type("VG%d" % i, (PartialGenerator,), {"run_" + vendor: run, "acl_" + vendor: acl, "run_" + other: run, "acl_" + other: acl})
     return type("VG%d" % i, (PartialGenerator,), {"run": run, "acl": acl})
 
 
@@ -270,7 +304,11 @@ def check(case):
         generators_context = None; filter_acl = None; filter_ifaces = None; filter_peers = None; filter_policies = None
         required_packages_check = False
     dg = G.DeviceGenerators(partial={dev: list(gens)}, ref={dev: []}, entire={dev: []}, json_fragment={dev: []})
-    ctx = G.OldNewDeviceContext(config="empty", args=Args(), downloaded_files={}, failed_files={}, running={}, failed_running={},
+    old_rows = case.get("old_rows") or []
+    if old_rows:
+        labels.append("device-has-config")
+    ctx = G.OldNewDeviceContext(config="running" if old_rows else "empty", args=Args(), downloaded_files={}, failed_files={},
+                                running={dev: "\n".join(old_rows) + "\n"} if old_rows else {}, failed_running={},
                                 no_new=False, stdin={"filter_acl": None, "config": None}, add_annotations=False, add_implicit=False,
                                 do_files_download=False, gens=dg, fetched_packages={}, failed_packages={}, device_count=1,
                                 do_print_perf=False)
@@ -319,11 +357,28 @@ def check(case):
             dev0.hostname = "refused"
             dg0 = G.DeviceGenerators(partial={dev0: [g for g, s in zip(gens, case["gens"]) if s.get("aborted_first_run")]}, ref={dev0: []},
                                      entire={dev0: []}, json_fragment={dev0: []})
-            ctx0 = G.OldNewDeviceContext(**dict(ctx.__dict__, gens=dg0))
+            ctx0 = G.OldNewDeviceContext(**dict(ctx.__dict__, gens=dg0, config="empty", running={}))
             try:
                 G._old_new_per_device(ctx0, dev0, mock.Mock())
             except Exception as e:
                 raise Violation("unexpected-error", f"a generator refusing its device made the run fail: {type(e).__name__}: {e}", det)
+        served = [(g, s) for g, s in zip(gens, case["gens"]) if s.get("served_before")]
+        if served:
+            labels.append("generator-objects-served-another-device")
+            for vk in ("same-vendor", "other-vendor"):
+                gs = [g for g, s in served if s["served_before"] == vk]
+                if not gs:
+                    continue
+                ohw = hw if vk == "same-vendor" else sut.hw_for({"huawei": "cisco", "cisco": "huawei"}[vendor])
+                dev1 = _Dev(ohw)
+                dev1.hostname = "other"
+                dg1 = G.DeviceGenerators(partial={dev1: list(gs)}, ref={dev1: []}, entire={dev1: []}, json_fragment={dev1: []})
+                try:
+                    r1 = G._old_new_per_device(G.OldNewDeviceContext(**dict(ctx.__dict__, gens=dg1, config="empty", running={})), dev1, mock.Mock())
+                except Exception as e:
+                    raise Violation("unexpected-error", f"serving a device the generators have nothing to say about failed: {type(e).__name__}: {e}", det)
+                if r1.err or RL_plain(r1.new):
+                    raise Violation("unexpected-error", f"a device the generators yield nothing for got new={RL_plain(r1.new)!r} err={r1.err!r}", det)
         try:
             res = G._old_new_per_device(ctx, dev, mock.Mock())
         except GeneratorError as e:
@@ -341,6 +396,10 @@ def check(case):
             raise Violation("unexpected-error", f"all rows are covered and owned exclusively, but the run failed with {got!r}", det)
         if _seq(res.new) != _seq(merged):
             raise Violation("union-differs", f"result.new {_plain(res.new)!r} != union of yielded paths {_plain(merged)!r}"[:700], det)
+        if old_rows:
+            exp_old = RA.ref_filter(odict((r, odict()) for r in old_rows), RA.ACtx.top(named))
+            if _plain(res.old) != _plain(exp_old):
+                raise Violation("old-not-filtered", f"result.old {_plain(res.old)!r} != the device's lines the merged ACL covers {_plain(exp_old)!r}"[:700], det)
         labels.append("union-ok")
         if len(gens) >= 2 and any(sum(1 for t in trees if _has_path(t, p) and _get(t, p)) >= 2 for p in _all_paths(merged)):
             labels.append("merged-block")
@@ -356,6 +415,10 @@ def check(case):
         if got is None or got[0] != "AclNotExclusiveError":
             raise Violation("conflict-not-reported", f"generators {exp[1][1]} both may delete {exp[1][0]!r} but the run gave {got!r}", det)
     return labels
+
+
+def RL_plain(t):
+    return {k: RL_plain(v) for k, v in (t or {}).items()}
 
 
 def _plain(t):
